@@ -11,6 +11,7 @@ EXPLANATION = (
     "own public key. Not decided: which 32-byte strings the libraries accept and that the derived public key is right (library arithmetic)."
 )
 TRUSTED = ["zeroize 1.x overwrites the slice with zeros", "k256/ed25519-dalek secret-key parsers validate as documented"]
+WITNESSES = ['W5']  # compile-fail witnesses run in the thorough tier (witness/src/lib.rs)
 ASSUMPTIONS = []
 
 PARSERS = {"secp256k1_from_bytes": (("from_slice", "from_bytes", "try_from"), "Secp256k1", "k256"),
